@@ -201,6 +201,9 @@ func c14Run(w *W) {
 		cur := make([]c14Seg, 0, n)
 		var rec func()
 		rec = func() {
+			if len(cur) > 0 && len(cur) <= 2 {
+				w.Announce(fmt.Sprintf("IFS=%q(set=%v), words that start with the segments %+v", ifs.v, ifs.set, cur))
+			}
 			if len(cur) > 0 && w.Mine() {
 				w.Count("states", 1)
 				for real := 0; real < 3; real++ {
@@ -362,6 +365,7 @@ func c14Histories(w *W, ifsList []struct {
 			}
 			if w.Mine() {
 				w.Count("states", 1)
+				w.Announce("history " + c14Show(next))
 				run(c14History{next})
 			}
 			rec(next)
@@ -376,6 +380,7 @@ func c14Histories(w *W, ifsList []struct {
 					continue
 				}
 				w.Count("states", 1)
+				w.Announce(fmt.Sprintf("histories IFS=%q probe %q then IFS=%q and the short words", i1.v, p, i2.v))
 				for _, sm := range small {
 					for _, v := range []bool{false, true} {
 						run(c14History{[]c14Step{{i1.v, i1.set, p, v}, {i2.v, i2.set, sm, v}}})
